@@ -8,10 +8,12 @@ claim("C15", "dominators / control dependence with normalised relations on MIR; 
       "that libfunc signatures describe the generated code is assumed.",
       "trusted: rustc MIR + trait resolution, the fact dumper, rules/guards.py; assumes callee semantics of std/indexmap/itertools",
       "DESIGN.md section 4, C15")
-claim("C05", "gate rule on MIR (typestate of the `immovable` flag) + table agreement Rust string constants <-> corelib `.cairo` declarations",
+claim("C05", "gate rule on MIR (typestate of the `immovable` flag) + table agreement Rust string constants <-> corelib `.cairo` declarations + sibling agreement of tree traversals (backward slices of stack pushes)",
       "The statement-reordering pass may move or delete a call only if the callee is in the configured moveable set, and every "
       "member of the default and minimal moveable sets is declared in the core library as an `extern fn ... nopanic` with no "
-      "implicit parameters, hence cannot panic, consume gas, touch a builtin or the system." + DECIDES +
+      "implicit parameters, hence cannot panic, consume gas, touch a builtin or the system; the three stack-driven traversals of "
+      "specialization-argument trees (parameter types of a specialized function, builder of its body, re-specialization in const folding) "
+      "all push the children of an aggregate in reverse, so they agree on the order of the unspecialized leaves." + DECIDES +
       " Semantic preservation by each optimisation rewrite (const folding, match optimisation, inlining, CSE, ...) is not decided.",
       "trusted: rustc MIR, fact dumper, token-level scan of corelib extern declarations; assumes nopanic+no-implicits externs are side-effect free",
       "DESIGN.md section 4, C05")
@@ -57,14 +59,16 @@ claim("C14", "call-graph reachability (class-hierarchy resolution) + panic-site 
       "(a) Bounded allocation: every allocation in code reachable from the untrusted-Sierra entry points has a size that is constant, "
       "derives from the length of materialised data or a <=16-bit quantity, or is dominated by a comparison against the remaining input. "
       "(b) Panic edges: the multiset of panic-capable sites (overflow/bounds/division asserts, explicit panics, unwrap/expect/index/zip_eq/"
-      "integer sum/into_or_panic ...) in functions reachable from those entry points is contained in the recorded inventory "
+      "integer sum/into_or_panic/integer operators with a reference operand ...) in functions reachable from those entry points is contained in the recorded inventory "
       "(tables/c14_sites.tsv); the validations that protect them are on every path; every rejection that was constructed in reachable "
       "code still is." + DECIDES + " Inventory rows of class U are an inherited baseline that is not individually triaged: for them the "
       "claim is only that the set does not grow. (c) Termination: each of the loops in workspace code reachable from those entry points is driven by an "
       "iterator / worklist, counts a growing length or a stepped index, or terminates under a recorded precondition that every reachable caller "
       "establishes by rejecting the other values before the call; a worklist loop marks (visited set / status slot) what it expands before pushing; "
       "the call sites of validation routines on the path do not disappear. Termination of recursion, of loops inside external crates and memory bounds beyond (a) are not decided. Two genuine panics found by (b) in the "
-      "ap-change computation and a non-terminating worklist in the circuit type specialisation were repaired in /repo (fix: commits 938a2fe, aa8782c, 17c99da); the i64 overflow of the legacy equation solver is a recorded known finding.",
+      "ap-change computation, a non-terminating worklist in the circuit type specialisation and three unchecked offset / ap-change computations in sierra-to-casm "
+      "(integer arithmetic reached through by-reference operator impls, now a site kind) were repaired in /repo (fix: commits 938a2fe, aa8782c, 17c99da, e0b62af, 327cf5e, 9110ec8); "
+      "the i64 overflow of the legacy equation solver is a recorded known finding.",
       "trusted: rustc MIR, fact dumper; external crates are leaves modelled by the list of panicking entry points in rules/c14.py; class-U inventory rows carry no safety claim",
       "DESIGN.md section 4, C14")
 claim("C13", "Eq-completeness over MIR field reads + call-graph reachability from tracked functions + who-may-construct / who-may-call rules",
